@@ -20,16 +20,18 @@ PID = "C10"
 RULES = ["C10.Lattice", "C10.Signaling", "C10.Roles", "C10.Keys", "C10.Connected", "C10.DcDelivery",
          "C10.RtpDelivery", "C10.RtpIntact", "C10.Reneg"]
 LIVENESS_RULES = {"C10.Signaling", "C10.Connected", "C10.DcDelivery", "C10.RtpDelivery", "C10.Reneg"}
-DEFAULT = {"mode": "WebRtc", "media": ["dc"], "bundle": "balanced", "mux": "require", "ice": "full",
-           "latching": False, "compat": "Standard", "offerer": "A", "sched": "plain", "reneg": "none"}
-FACTORS = ["mode", "media", "bundle", "mux", "ice", "latching", "compat", "offerer", "sched", "reneg"]
+DEFAULT = {"mode": "WebRtc", "media": ["dc"], "bundle": "balanced", "muxA": "require", "muxB": "require", "ice": "full",
+           "latchingA": False, "latchingB": False, "compatA": "Standard", "compatB": "Standard", "offerer": "A",
+           "sched": "plain", "reneg": "none"}
+FACTORS = ["mode", "media", "bundle", "muxA", "muxB", "ice", "latchingA", "latchingB", "compatA", "compatB", "offerer",
+           "sched", "reneg"]
 CHUNK = 40
 
 LATTICE_CONSTS = """  Modes = {"WebRtc", "Srtp", "Rtp"}
   MediaSets = {{"dc"}, {"audio"}, {"video"}, {"dc", "audio"}, {"dc", "video"}, {"audio", "video"}, {"dc", "audio", "video"}}
-  Bundles = {"balanced", "maxbundle", "maxcompat"}
+  Bundles = {"balanced", "maxcompat"}
   Muxes = {"require", "negotiate"}
-  Ices = {"full", "liteA", "liteB", "tcp", "udpmux"}
+  Ices = {"full", "liteA", "liteB", "tcp", "tcpActive+tcp", "udpmuxA", "udpmuxB", "udpmuxAB", "liteA+udpmuxB", "liteB+udpmuxA"}
   Latchings = {TRUE, FALSE}
   Compats = {"Standard", "LegacySip"}
   Offerers = {"A", "B"}
@@ -71,24 +73,28 @@ def distance(a, b):
 
 
 def select_quick(lattice, seed):
-    """every compatible configuration that differs from the default in one factor (two where the factor forces a
-    second one, e.g. a direct mode has no data channel) + a seeded stratified sample: each value of each factor
-    appears in at least three further configurations."""
+    """(1) every compatible configuration one factor away from a base configuration: the default (WebRtc, data
+    channel) and, per direct mode, audio+video with everything else default; (2) in Rtp mode with audio+video the
+    full product of the per-side SDP compatibility modes, the offerer and who renegotiates (transport layout per m-line
+    is decided per side and per description); (3) a seeded stratified sample: each value of each factor appears in
+    at least two further configurations."""
     import random
     rnd = random.Random(seed)
     chosen = {}
+    bases = [DEFAULT] + [dict(DEFAULT, mode=m, media=["audio", "video"]) for m in ("Rtp", "Srtp")]
     for c in lattice:
-        if distance(c, DEFAULT) <= 1:
+        if any(distance(c, b) <= 1 for b in bases):
             chosen[key(c)] = c
+        for b in bases[1:2]:
+            if all(norm(c)[f] == b[f] for f in FACTORS if f not in ("compatA", "compatB", "offerer", "reneg")):
+                chosen[key(c)] = c
     for f in FACTORS:
         vals = {}
         for c in lattice:
             vals.setdefault(json.dumps(norm(c)[f]), []).append(c)
         for v, cs in sorted(vals.items()):
-            best = sorted(cs, key=lambda c: (distance(c, DEFAULT), key(c)))
-            # the closest representatives of this value, then random ones
-            picks = best[:2] + rnd.sample(cs, min(3, len(cs)))
-            for c in picks:
+            best = sorted(cs, key=lambda c: (min(distance(c, b) for b in bases), key(c)))
+            for c in best[:1] + rnd.sample(cs, min(2, len(cs))):
                 chosen.setdefault(key(c), c)
     return [chosen[k] for k in sorted(chosen)]
 
@@ -164,9 +170,14 @@ def signature(c, v):
     side = "-"
     if inst in ("A", "B"):
         side = "offerer" if inst == c["offerer"] else "answerer"
-    return {"sub": "lifecycle-pair", "rule": rule, "mode": c["mode"], "compat": c["compat"], "ice": c["ice"],
-            "mux": c["mux"], "nmedia": len([m for m in c["media"] if m != "dc"]), "dc": "dc" in c["media"],
-            "sched": c.get("sched", "plain"), "reneg": c.get("reneg", "none"), "t": t, "side": side}
+    off, ans = c["offerer"], ("B" if c["offerer"] == "A" else "A")
+    return {"sub": "lifecycle-pair", "rule": rule, "mode": c["mode"],
+            "compat_offerer": c["compat" + off], "compat_answerer": c["compat" + ans],
+            "compat": c["compatA"] if c["compatA"] == c["compatB"] else "mixed",
+            "mux": c["muxA"] if c["muxA"] == c["muxB"] else "mixed", "ice": c["ice"],
+            "nmedia": len([m for m in c["media"] if m != "dc"]), "dc": "dc" in c["media"],
+            "sched": c.get("sched", "plain"), "reneg": c.get("reneg", "none"), "t": t, "side": side,
+            "medium": site if t == "rtp_delivery" else "-"}
 
 
 def validate_runs(ck, runs, tag):
@@ -239,7 +250,7 @@ def run(tier):
     lattice, res = lattice_from_tlc(ck)
     if tier == "quick":
         cfgs = select_quick(lattice, vlib.seed())
-        shards = 8
+        shards = 12
     else:
         cfgs = lattice
         shards = 12
@@ -259,9 +270,13 @@ def run(tier):
             sig = signature(sc["cfg"], v)
             k = json.dumps(sig, sort_keys=True)
             record = {"cfg": sc["cfg"], "broken": list(v), "end": r[-1], "replay": sc}
-            if (v[0] in LIVENESS_RULES and k not in reported and ck.known.match(PID, sig) is None
-                    and confirmed.get(v[0], 0) < 2):
-                # (once two signatures of a rule have been reproduced 3x, further ones of that rule are taken as is)
+            if v[0] in LIVENESS_RULES and k not in reported and ck.known.match(PID, sig) is None:
+                # every distinct signature is re-run; at most 8 confirmations per run (a broken tree produces
+                # hundreds of signatures: the first 8 confirmed ones are enough for the verdict)
+                if confirmed.get('#attempts', 0) >= 8:
+                    ck.notes.append(f"not confirmed (confirmation budget used up): {v} in {sc['cfg']}")
+                    continue
+                confirmed['#attempts'] = confirmed.get('#attempts', 0) + 1
                 if confirm(ck, sc, v[0]):
                     confirmed[v[0]] = confirmed.get(v[0], 0) + 1
                 else:
@@ -282,7 +297,9 @@ def run(tier):
     ck.cov["exhaustive"] = bool(tier != "quick" and res["finished"] and len(runs) == len(lattice))
     ck.assumptions += [
         "lattice = mode x media x bundle policy x rtcp-mux x ice variant x latching x compat x offerer x schedule "
-        "(plain / the offerer's set_remote_description task is held 300 ms after it started ICE), filtered by "
+        "(plain / the offerer's set_remote_description task is held 300 ms after it started ICE) x renegotiation; "
+        "rtcp-mux policy, SDP compatibility mode and latching are per-side dimensions, the ICE value encodes the "
+        "per-side ICE options (lite, single-port UDP mux, ICE-TCP active/passive); filtered by "
         "Compatible (WebRtc: Standard SDP, no latching; direct modes: audio/video only, no ICE variant; Srtp: no latching)",
         "both endpoints are rustrtc, same mode, on loopback; ICE-TCP and single-port UDP mux are configured as the "
         "library's own tests do (answerer listens / owns the mux port)",
